@@ -571,10 +571,17 @@ class RedlineEngine:
                             logger.warning(f"Skipping overlapping heuristic edit at index {start_idx}")
                             skipped += 1
                             continue
+                        len_before = len(self.mapper.full_text)
                         if self._apply_single_edit_heuristic(edit):
                             applied += 1
-                            occupied_ranges.append((start_idx, end_idx))
                             self.mapper._build_map()
+                            # Recorded ranges must stay in the coordinates of the rebuilt map:
+                            # everything behind this edit moved by the length of its markup.
+                            delta = len(self.mapper.full_text) - len_before
+                            occupied_ranges = [
+                                (s + delta, e + delta) if s >= end_idx else (s, e) for s, e in occupied_ranges
+                            ]
+                            occupied_ranges.append((start_idx, end_idx + delta))
                         else:
                             skipped += 1
                         continue
